@@ -117,9 +117,11 @@ def r02_4(ctx):
         if ok:
             for p in explore(f, max_visits=1):
                 if p.end == 'return':
+                    # every returning path asks the raw walker about the probe (param 2) and answers from its result
+                    call = [c for c in path_calls(p) if c[2] == dst]
                     rv = p.ret()
-                    call = [x for x in walk(rv) if x[0] == 'call' and x[1] == dst]
-                    ok = ok and len(call) == 1 and any(y[0] == 'param' and y[2] == 2 for y in walk(call[0][2][1]))
+                    from_call = any(x[0] == 'call' and x[1] == dst for x in walk(rv)) or any(d[2][0] == 'discr' and any(x[0] == 'call' and x[1] == dst for x in walk(d[2])) for d in p.decisions)
+                    ok = ok and len(call) == 1 and any(y[0] == 'param' and y[2] == 2 for y in walk(call[0][3][1])) and from_call
         ctx.check(R, ok, 'delegates:' + src, '%s must forward the probe to %s (calls: %s)' % (src, dst, cs), fn=f)
 
 
